@@ -1319,7 +1319,7 @@ theorem write_rejects (r : Route) (d : DType) (h : d.wellFormed = true) :
           (d.kind = .bool ∨ d.kind = .complex ∨ (d.kind = .float ∧ d.size = 2))) ∧
       (∀ e, readDType r d = .error e → e = .key) := by
     intro d hd r
-    have hfin : ∀ d ∈ DType.all, ∀ r ∈ [Route.dict, .asdf, .pickle, .pickleObject, .pickleObject5, .fitsTree, .fitsImageField,
+    have hfin : ∀ d ∈ DType.all, ∀ r ∈ [Route.dict, .asdf, .pickle, .pickleObject, .fitsTree, .fitsImageField,
           .fitsImageBasis],
         (decide (readDType r d = .error .key) =
           (decide (r = .fitsImageField ∨ r = .fitsImageBasis) &&
@@ -1349,14 +1349,13 @@ kind and item size; through a dictionary, an asdf file and the tree of a FITS fi
 the byte order too; pickles and mode-basis images come back in native order. -/
 theorem write_read_dtype_eq (r : Route) (d d' : DType) (h : readDType r d = .ok d') :
     d'.kind = d.kind ∧ d'.size = d.size ∧
-    ((r = .dict ∨ r = .asdf ∨ r = .fitsTree ∨ r = .pickleObject5) → d' = d) ∧
+    ((r = .dict ∨ r = .asdf ∨ r = .fitsTree) → d' = d) ∧
     ((r = .pickle ∨ r = .pickleObject ∨ r = .fitsImageBasis) → d'.order = d.native.order) := by
   cases r <;> simp only [readDType, fitsImageDType, bind, Except.bind, Except.map] at h
   case dict => injection h with h; subst h; simp
   case asdf => injection h with h; subst h; simp
   case fitsTree => injection h with h; subst h; simp
   case pickleObject => injection h with h; subst h; simp [DType.native]
-  case pickleObject5 => injection h with h; subst h; simp
   case pickle => injection h with h; subst h; simp [DType.native]
   case fitsImageField =>
     cases hc : fitsCard d with
